@@ -20,7 +20,7 @@
    be 8-aligned: Layout::from_size_align(capacity, 8)).
 
    Definitions only - no proofs in this file. *)
-From ZV.Common Require Import Base.
+From ZV.Common Require Import Base Run.  (* Run: the case-file helpers (mismatches) must be built with the model *)
 Open Scope N_scope.
 
 (* ------------------------------------------------------------------------------------------- *)
@@ -81,7 +81,7 @@ Definition carve (v : variant) (b : nat) (aligned : N) : N :=
 (* allocate(size): None = Err (or, in the pinned tree, an overflow panic) *)
 Definition alloc (v : variant) (p : pool) (size : N) : option N * pool :=
   if size =? 0 then (None, p)
-  else if W64 <=? size + 7 then (None, p)
+  else if W63 <=? size then (None, p)
   else
     let a := align_size size in
     if a <=? FAST_BIN_THRESHOLD then
@@ -98,7 +98,7 @@ Definition alloc (v : variant) (p : pool) (size : N) : option N * pool :=
 (* deallocate(ptr, size) with ptr = base + off; true = Ok(()) *)
 Definition dealloc (v : variant) (p : pool) (off : Z) (size : N) : bool * pool :=
   if size =? 0 then (true, p)
-  else if W64 <=? size + 7 then (false, p)
+  else if W63 <=? size then (false, p)
   else
     let a := align_size size in
     let inrange := ((0 <=? off) && (off <? Z.of_N (msize p)))%Z in
